@@ -1,9 +1,10 @@
 PROPS["C03"] = dict(
     pkg="p_kv", hooks=["inmem"], level="exploration", design="DESIGN.md §4 C03",
     technique="model-based differential PBT: every op list runs on a reference model, the in-memory and the Redis (miniredis) backend; bounded-exhaustive op lists + rapid",
-    rule="case = op list over Create/Get/GetMany/Put/PutMany/CasByVersion/Delete/ListKeys with keys {a,b,ab,a/b,k1}, values {nil,'',x,yy}, "
-         "expiry none/+1h/+100h (the clock does not move here), CAS version current/previous/empty/garbage, GetMany/PutMany lists of 0..4 "
-         "keys with repeats, 14 glob patterns from the subset gobwas/glob and Redis MATCH agree on; exhaustive part: all lists to the depth in "
+    rule="case = op list over Create/Get/GetMany/Put/PutMany/CasByVersion/Delete/ListKeys with keys {a,a/,b,ab,a/b,k1,c\\d}, values {nil,'',x,yy}, "
+         "expiry none/+1h/+100h/'never' (1 January..December of the years 2500, 2999, 9999, 10000, 10001, 25000, 292277, 1000000 in turn - on both sides of what int64 nanoseconds, RFC 3339 and protobuf timestamps express; "
+         "the ExpiresAt read back must equal the one written; the clock does not move here), a third of the ListKeys ops open a second listing right after the first and read the two iterators in reverse order (each must yield the keys present at that moment), CAS version current/previous/empty/garbage, GetMany/PutMany lists of 0..4 "
+         "keys with repeats, 18 glob patterns from the subset gobwas/glob and Redis MATCH agree on; exhaustive part: all lists to the depth in "
          "exhaustive_parts over a 29-op alphabet on 2 keys. A third unit runs the in-memory backend alone against the model with records written already expired (Redis clamps TTLs to >= 1 ms and "
          "cannot take part). A bulk unit writes N records with PutMany (N at and around 64, 128, 256, 500, 512, 1000, 1024, 2000, 2048, 3000, 4096; chunked or in one call; "
          "with and without expiries), reads all of them plus absent keys back with ONE GetMany in a permuted order, lists them, deletes a part and reads "
